@@ -82,7 +82,7 @@ def workload(rng, n):
                 kb = kb[:p] + rng.choice("0123456789ABCDEF") + kb[p + 1:]
             items.append(("tr31.unwrap", (kbpk, kb)))
         else:
-            c = t.gen_case(rng, profile="few", keylen=16)
+            c = t.gen_case(rng, profile=rng.choice(["few", "few", "few", "many"]), keylen=16)
             items.append(("tr31.str", (t.impl_header(c),)))
     # half of the items pass their byte-string arguments as mutable bytearrays (messages, keys, IVs, blocks)
     out = []
@@ -124,6 +124,20 @@ def run(ctx):
             viol.append({"what": "call modified its arguments", "input": {"fn": it[0], "args": [str(a)[:80] for a in before]},
                          "expected": "arguments unchanged", "observed": [str(a)[:80] for a in snapshot(it[1])]})
         dist[it[0]] = dist.get(it[0], 0) + 1
+    # objects handed out earlier must not change afterwards (e.g. headers returned by unwrap sharing one default object)
+    kept = []
+    for it in items[:400]:
+        if it[0] == "tr31.unwrap":
+            try:
+                h, k = tr31.unwrap(*it[1])
+                kept.append((it, h, core.show_header(h)))
+            except Exception:  # noqa: BLE001
+                pass
+    for it, h, txt in kept:
+        if core.show_header(h) != txt:
+            viol.append({"what": "a header returned by an earlier unwrap was changed by later calls",
+                         "input": {"fn": "tr31.unwrap", "args": [str(a)[:80] for a in it[1]]}, "expected": txt[:100], "observed": core.show_header(h)[:100]})
+            break
     # repetition
     for it, r in zip(items[:300], ref):
         if call(it) != r:
